@@ -209,13 +209,22 @@ int main(void)
         else if (!strcmp(cmd, "sch")) {
             /* the scheduler on a real connection: sendASDUInternal / sendWaitingASDUs with a given k and high-priority ring size;
                printed: the return value, the ASDUs written (payload ids), the k-buffer occupancy, isRunning, the ring counters */
-            char sub[32]; x = 0; sscanf(line, "%*s %31s %d %d", sub, &x, &y);
+            char sub[32]; int z = 2; x = 0; sscanf(line, "%*s %31s %d %d %d", sub, &x, &y, &z);
             if (!strcmp(sub, "new")) {
                 fresh(x);
                 HighPriorityASDUQueue_destroy(slave->connectionAsduQueue);
                 slave->connectionAsduQueue = HighPriorityASDUQueue_create(y);
                 con->highPrioQueue = slave->connectionAsduQueue;
+                MessageQueue_destroy(slave->asduQueue);
+                slave->asduQueue = MessageQueue_create(z);          /* the event ring, z entries */
+                con->lowPrioQueue = slave->asduQueue;
                 con->state = M_CON_STATE_STARTED; asdu_id = 0;
+            }
+            else if (!strcmp(sub, "ev")) { sCS101_StaticASDU st; MessageQueue_enqueueASDU(con->lowPrioQueue, mk_asdu(&st, x, asdu_id++)); }
+            else if (!strcmp(sub, "rearm")) {
+                /* the connection ends: what was sent and not confirmed waits again; the next connection starts with an empty k-buffer */
+                MessageQueue_setWaitingForTransmissionWhenNotConfirmed(con->lowPrioQueue);
+                con->oldestSentASDU = -1; con->newestSentASDU = -1;
             }
             else if (!strcmp(sub, "resp")) { sCS101_StaticASDU st; bool r = sendASDUInternal(con, mk_asdu(&st, x, asdu_id++)); printf("schresp %d\n", r); }
             else if (!strcmp(sub, "drain")) { sendWaitingASDUs(con); printf("schdrain\n"); }
@@ -235,6 +244,7 @@ int main(void)
                 HighPriorityASDUQueue q = con->highPrioQueue;
                 printf(" k=%d run=%d hp n=%d first=%ld last=%ld lib=%ld\n", occ, (int) con->isRunning, q->entryCounter, q->firstEntry ? (long) (q->firstEntry - q->buffer) : -1,
                        q->lastEntry ? (long) (q->lastEntry - q->buffer) : -1, q->lastInBufferEntry ? (long) (q->lastInBufferEntry - q->buffer) : -1);
+                MessageQueue saved = mq; mq = con->lowPrioQueue; mq_dump(); mq = saved;
             }
         }
         else if (!strcmp(cmd, "hp")) {
